@@ -9,7 +9,7 @@ from simkit.core import EventLog, Violations, canon, sha, tree_digest
 from simkit.core import SutError
 from simkit.props.C07 import failed, run_engine, sut_violation
 
-RUN_CAP_S = 180
+RUN_CAP_S = 900
 
 
 def gen_plan(rng, tier: str, idx: int) -> dict:
